@@ -355,11 +355,11 @@ PROPS = {
              'and a release) overlap in time and the queue was full at some instant. Distinct = distinct tapes.',
         stages=[
             dict(h='mqconc', mode='enum', what='THREADS, 2 senders x 1 msg, depth 1, 1 retry, <=4 pre-emptions', params=dict(mode=0, depth=1, senders=2, msgs=1, retries=1, preempt=4, oracle=4),
-                 common=dict(split=5, maxruns=400000)),
+                 common=dict(split=5, maxruns=400000), thorough=dict(params=dict(preempt=5), maxruns=6000000)),
             dict(h='mqconc', mode='enum', what='THREADS, 2 senders x 1 msg, depth 2, <=3 pre-emptions', params=dict(mode=0, depth=2, senders=2, msgs=1, retries=0, preempt=3, oracle=4),
-                 common=dict(split=5, maxruns=400000)),
+                 common=dict(split=5, maxruns=400000), thorough=dict(params=dict(preempt=5, msgs=2), maxruns=6000000)),
             dict(h='mqconc', mode='enum', what='THREADS, 3 senders x 1 msg, depth 2, <=2 pre-emptions', params=dict(mode=0, depth=2, senders=3, msgs=1, retries=0, preempt=2, oracle=4),
-                 common=dict(split=5, maxruns=400000)),
+                 common=dict(split=5, maxruns=400000), thorough=dict(params=dict(preempt=3), maxruns=6000000)),
             dict(h='mqconc', mode='enum', what='ISR, 2 nested senders interrupt the receiver, depth 1, all placements', params=dict(mode=1, roles=0, depth=1, senders=2, msgs=1, retries=0, oracle=4),
                  common=dict(split=4, maxruns=400000)),
             dict(h='mqconc', mode='enum', what='ISR, 3 nested senders x 2 msgs interrupt the receiver, depth 2', params=dict(mode=1, roles=0, depth=2, senders=3, msgs=2, retries=0, oracle=4),
@@ -404,7 +404,7 @@ PROPS = {
                  quick=dict(cases=100000, len=300), thorough=dict(cases=5000000, len=300)),
         ],
         require={'buffer-was-full': 1000, 'buffer-was-empty': 1000, 'put-overlapped-get': 1000, 'putchar-spins-until-room': 500,
-                 'isr-producer-interrupts-consumer': 500, 'isr-consumer-interrupts-producer': 500, 'byte-values>=0x80': 1000, 'index-wrapped': 1000},
+                 'isr-producer-interrupts-consumer': 500, 'isr-consumer-interrupts-producer': 500, 'byte-values>=0x80': 1000, 'index-wrapped': 1000, 'large-buffer-length': 500},
         assumptions=['one producer context and one consumer context (in ISR mode the interrupting side is split into two handlers of equal priority, which cannot nest)'],
         technique='property-based testing (FIFO model, ASan) + fuzzing of schedules: compiler-instrumented object code under a harness-owned scheduler, bounded-exhaustive and random',
     ),
@@ -429,6 +429,9 @@ PROPS = {
                  workers=2, common=dict(split=3, maxruns=1500000))
             for (sc, hs, ea, ed) in [(0, (3, 1), 1, 1), (0, (4, 3, 2), 0, 2), (1, (3, 0), 1, 1), (1, (5, 3, 1), 0, 1), (2, (2, 3), 1, 2), (2, (1, 2, 0), 0, 1), (3, (3, 3), 1, 1), (3, (4, 4, 1), 0, 2), (4, (1, 2), 1, 1), (4, (2, 1, 1), 0, 1)]
         ] + [
+            dict(h='fibconc', mode='enum', what='THREADS, script 3, event sender + run_atomic thread, <=2 pre-emptions',
+                 params=dict(mode=0, script=3, oracle=6, handlers=2, evdepth=1, h0=3, h1=1, preempt=2), workers=4,
+                 common=dict(split=3, maxruns=1500000), thorough=dict(params=dict(preempt=3), maxruns=6000000)),
             dict(h='fibconc', mode='rc', what='random scripts, handlers, placements, both modes', params=dict(oracle=6),
                  quick=dict(cases=60000, len=500), thorough=dict(cases=3000000, len=500)),
         ],
